@@ -196,6 +196,12 @@ def check(ctx):
     from .c11 import check_split
 
     check_split(ctx, "C07-h", "C07-h", names=["b_o_Standing"])
+    # ... and the array forms keep what they compute: a result buffer allocated like the caller's pressure array states a
+    # float type (an integer pressure grid would truncate the dissolved-gas ratio that density and FVF are both built on,
+    # and the array path would leave the scalar one) - the buffer rule of C11-a / C12-e over the oil correlations
+    from .dtypes import check_module_buffers
+
+    check_module_buffers(ctx, "C07-h", "bluebonnet.fluids.oil", floor=2)
 
     # ---- C07-i the gas PVT table hands these quantities on column by column: each column is its own correlation at the row's
     # pressure (density, viscosity and compressibility of the *same* gas; a pair of exchanged columns leaves every single
